@@ -75,6 +75,12 @@ def fam_note(rng):
     nfree = rng.choice([0, 1, 1, 2]) if mode == "leaf" else rng.choice([1, 1, 2])
     freed = freeable[:nfree]
     owner = {n: rng.randrange(nf) for n in freed}
+    # two freed notes on one ancestor chain are freed by the SAME fiber: nsync_note_free (child) concurrent with
+    # nsync_note_free (ancestor) is the free/free variant of defect F4 (family note_f4b)
+    for a in freed:
+        for b in freed:
+            if a != b and a in ancestors(parent, b):
+                owner[b] = owner[a]
     # notes under which new children may be created: never a freed leaf (it must stay a leaf)
     shared = [i for i in range(nn) if i not in freed]
     forbidden_notify = set()
@@ -152,6 +158,18 @@ def fam_note_f4(rng):
              "fiber notify n0", "fiber note_free n1"]
     if rng.random() < 0.5:
         lines.append("fiber is_notified n2")
+    return lines
+
+
+def fam_note_f4b(rng):
+    """The free/free variant of F4: nsync_note_free (parent) concurrent with nsync_note_free (child that has
+    children): the child's free re-parents the grandchildren under the parent whose child-scan is already over;
+    the parent's free waits for 'no children' forever.  Outcome `stuck` under some schedules."""
+    ng = rng.choice([1, 2, 3])
+    pre = ["note_new n0 - inf", "note_new n1 n0 inf"] + ["note_new n%d n1 inf" % (2 + i) for i in range(ng)]
+    lines = ["sem %s" % rng.choice(["counting", "binary"]), HDR, "pre " + " ; ".join(pre)]
+    lines.append("fiber " + " ; ".join(["yield"] * rng.randrange(0, 3) + ["note_free n0"]))
+    lines.append("fiber " + " ; ".join(["yield"] * rng.randrange(0, 3) + ["note_free n1"]))
     return lines
 
 
